@@ -277,6 +277,29 @@ struct DC14
 	static void expect(ArgPack & p, int, int eid, int val) { p.push(eid); p.push(val); }
 };
 
+// custom mixins (not the forwarding template eventpp::MixinFilter): ordinary member functions, one takes the by-value prototype
+// arguments BY VALUE (must not consume what the listeners get), one takes them by non-const reference and changes one (must be
+// called exactly once per dispatch, and the listeners must see the change)
+static int gMixV[20200], gMixR[20200];
+template <typename Base> struct MixinByValue : Base { bool mixinBeforeDispatch(int, TPayload p, int) const { const long long e = p.observe(); if(e >= 0 && e < 20200) ++gMixV[e]; return true; } };
+template <typename Base> struct MixinByRef : Base { bool mixinBeforeDispatch(int &, TPayload & p, int & v) const { const long long e = p.observe(); if(e >= 0 && e < 20200) ++gMixR[e]; v += 1000000; return true; } };
+struct PolCustomMixins { typedef eventpp::MixinList<MixinByValue, MixinByRef> Mixins; };
+struct DC15
+{
+	typedef eventpp::EventDispatcher<int, void(int, TPayload, int), PolCustomMixins> D;
+	static const char * name() { return "ED<int,void(int,TPayload,int)> two custom mixins: by-value parameters, by-reference parameters (changes the int)"; }
+	static int key(int k) { return KI(k); }
+	static void dispatch(D & d, int k, int eid, int val, uint32_t form) {
+		gMixV[eid] = 0; gMixR[eid] = 0;
+		if(form == 0) { int kk = KI(k); TPayload p(eid); int v = val; d.dispatch(kk, p, v); }
+		else if(form == 1) { const int kk = KI(k); const TPayload p(eid); const int v = val; d.dispatch(kk, p, v); }
+		else d.dispatch(KI(k), TPayload(eid), int(val));
+		if(gMixV[eid] != 1) violation("dispatch:mixin-with-by-value-parameters:calls", "mixinBeforeDispatch(int, TPayload, int) was called " + num(gMixV[eid]) + " times with the dispatched payload by one dispatch");
+		if(gMixR[eid] != 1) violation("dispatch:mixin-with-reference-parameters:calls", "mixinBeforeDispatch(int &, TPayload &, int &) was called " + num(gMixR[eid]) + " times with the dispatched payload by one dispatch");
+	}
+	static void expect(ArgPack & p, int k, int eid, int val) { p.push(KI(k)); p.push(eid); p.push(val + 1000000); }
+};
+
 // ------------------------------------------------------------------ world
 struct DMode { int pAct, maxDepth, minOps, maxOps; bool structural; int nd; };
 static DMode dmodeOf(const std::string & m)
@@ -597,9 +620,9 @@ template <bool Enabled, typename Cfg>
 static typename std::enable_if<! Enabled>::type runCfgIf(const DMode &, Rng &, uint64_t, int) {}
 static void skipCase() { --ctx().casesRun; }
 
-enum { NCFG = 15 };
+enum { NCFG = 16 }; // configuration n is enabled by mask bit n (n < 15) or n + 1 (bit 15 is the C20 family)
 #ifndef VF_CFG_MASK
-#define VF_CFG_MASK 0x7fff
+#define VF_CFG_MASK 0x17fff
 #endif
 // C20: the same program under a family that differs only in policies (threading, map kind, callback storage, argument passing mode)
 #if (VF_CFG_MASK >> 15) & 1
@@ -679,6 +702,7 @@ static void runCase(uint64_t caseNo, Rng & rng)
 #define VF_CFG(n) case n: if((VF_CFG_MASK >> n) & 1) { runCfgIf<((VF_CFG_MASK >> n) & 1) != 0, DC##n>(mode, rng, caseNo, n); } else { skipCase(); } break;
 	switch(cfg) {
 	VF_CFG(0) VF_CFG(1) VF_CFG(2) VF_CFG(3) VF_CFG(4) VF_CFG(5) VF_CFG(6) VF_CFG(7) VF_CFG(8) VF_CFG(9) VF_CFG(10) VF_CFG(11) VF_CFG(12) VF_CFG(13) VF_CFG(14)
+	case 15: if((VF_CFG_MASK >> 16) & 1) { runCfgIf<((VF_CFG_MASK >> 16) & 1) != 0, DC15>(mode, rng, caseNo, 15); } else { skipCase(); } break;
 	default: skipCase(); break;
 	}
 }
